@@ -1,6 +1,6 @@
 From Coq Require Import List NArith Bool.
 From V.gen Require Consts.
-From V.C12 Require Import Model Proofs Inv2 Async Sched Progress.
+From V.C12 Require Import Model Proofs Inv2 Async Sched Progress Live.
 Import ListNotations.
 Open Scope N_scope.
 From V.C12 Require Import Properties.
@@ -60,6 +60,18 @@ Check (C12_sync_nonblocking :
               else e_fclog (gl s' x) = e_fclog (gl s x) ++ [k] /\ e_cmds (hn s' x) = e_cmds (hn s x) + 1)
       else r = 2 /\ s' = s
   end).
+Check (C12_sink_sync_nonblocking :
+  forall (c : cfg) (x : bool) (s : st) (k t l : N),
+  let '(s', r) := sink_sync c x s k t l in
+  gep s' (negb x) = gep s (negb x) /\ lAB s' = lAB s /\ lBA s' = lBA s /\
+  hn s' x = hn s x /\ e_aq (cn s' x) = e_aq (cn s x) /\
+  e_fclog (gl s' x) = e_fclog (gl s x) /\
+  if live s x k then
+    if len (e_sq (cn s x)) <? c_s (ecf c x)
+    then r = 0 /\ e_sq (cn s' x) = e_sq (cn s x) ++ [mkN x k true t l] /\
+         e_acc (gl s' x) = e_acc (gl s x) ++ [mkN x k true t l]
+    else r = 1 /\ s' = s
+  else r = 2 /\ s' = s).
 Check (C12_clog_once :
   forall (c : cfg) (hs : list (list bool)) (ts : list step) (x : bool),
     NoDup (e_fclog (gl (final c hs ts) x))).
@@ -165,6 +177,23 @@ Check (C12_handle_progress :
   e_evs (hn s y) = [] -> e_peers (hn s y) = Some k -> e_nq (hn s y) = n :: q -> n_per n = k -> b <> 0 ->
   let '(s', e) := h_poll c y b s in
   e = UNotif n /\ e_nq (hn s' y) = q /\ e_del (gl s' y) = e_del (gl s y) ++ [n]).
+Check (C12_eventual_delivery :
+  forall (c : cfg) (hs : list (list bool)) (ts : list step) (b : N) (n : nat),
+    let s := final c hs ts in
+    drainable c b s -> (under_way s <= n)%nat ->
+    let s' := final c hs (ts ++ fair_rounds b n) in
+    drainable c b s' /\ under_way s' = O /\
+    forall x m, proj (per s) m (e_del (gl s' (negb x))) = proj (per s) m (e_acc (gl s x))).
+Check (C12_fair_round_progress :
+  forall (c : cfg) (b : N) (s : st), drainable c b s ->
+    let s' := fst (run c s (fair_round b)) in
+    drainable c b s' /\ same_acc s s' /\
+    (under_way s' <= under_way s)%nat /\ (under_way s <> O -> (under_way s' < under_way s)%nat)).
+Check (C12_first_delivered_is_first_accepted :
+  forall (c : cfg) (hs : list (list bool)) (ts : list step) (x : bool) (k : N) (m : bool) (n : notif) (rest : list notif),
+    let s := final c hs ts in
+    proj k m (e_del (gl s (negb x))) = n :: rest ->
+    exists rest', proj k m (e_acc (gl s x)) = n :: rest').
 Check (C12_quiescence_is_a_schedule :
   forall (c : cfg) (hs : list (list bool)) (xs : list action),
     exists ts, arun c 0 (init hs) xs = final c hs ts).
